@@ -252,3 +252,42 @@ func InRange(c, lo, hi byte) bool { return lo <= c && c <= hi }
 
 // StrEq compares two strings (symbolically without forking).
 func StrEq(a, b string) bool { return a == b }
+
+// Case is one native replay case.
+type Case struct {
+	ID      string              `json:"id"`
+	Harness string              `json:"harness"`
+	Inputs  map[string][]uint64 `json:"inputs"`
+}
+
+// RunBatch runs the cases listed in the file named by $ZZVERIF_CASES against the given harnesses.
+func RunBatch(harnesses map[string]func()) {
+	p := os.Getenv("ZZVERIF_CASES")
+	if p == "" {
+		return
+	}
+	data, err := os.ReadFile(p)
+	if err != nil {
+		panic("zzverif: " + err.Error())
+	}
+	var cases []Case
+	if err := json.Unmarshal(data, &cases); err != nil {
+		panic("zzverif: " + err.Error())
+	}
+	for _, c := range cases {
+		h := harnesses[c.Harness]
+		if h == nil {
+			fmt.Println("ZZVERIF-RESULT: " + `{"id":"` + c.ID + `","outcome":"no-such-harness"}`)
+			continue
+		}
+		mu.Lock()
+		loaded = true
+		rp.Inputs = c.Inputs
+		if rp.Inputs == nil {
+			rp.Inputs = map[string][]uint64{}
+		}
+		mu.Unlock()
+		fmt.Println("ZZVERIF-BEGIN: " + c.ID)
+		RunNative(c.ID, h)
+	}
+}
